@@ -632,6 +632,34 @@ var c16Segs = []string{"*", "?", "a*", "*b", "a?", "??", "[ab]", "[a-c]", "[^a]"
 
 var c16Malformed = []string{"[", "a[", "[]", "[a-]", "[-a]", "[^]", "[a", "[^", "[a-", "*[", "a*[", "?[", "[a-]b]", "[--]", "a\\", "\\a", "\\*", "[\\]]", "a\\b", "[a/b]", "[]]", "[!a]"}
 
+// a pattern element that matches the given name (and usually some of its siblings)
+func c16Generalise(r *Rng, name string) string {
+	k := r.Intn(len(name))
+	switch r.Intn(9) {
+	case 0:
+		return name
+	case 1:
+		return "*"
+	case 2:
+		return name[:k] + "*"
+	case 3:
+		return "*" + name[k:]
+	case 4:
+		return name[:k] + "?" + name[k+1:]
+	case 5:
+		if name[k] == '-' || name[k] == ']' {
+			return name[:k] + "?" + name[k+1:]
+		}
+		return name[:k] + "[" + name[k:k+1] + "]" + name[k+1:]
+	case 6:
+		return name[:k] + "[!-~]" + name[k+1:]
+	case 7:
+		return name[:k] + "[^z]" + "*"
+	default:
+		return name[:k] + "[^z]" + name[k+1:]
+	}
+}
+
 func c16GenPattern(w *c16World, r *Rng) string {
 	var ps []c16Path
 	w.tree.paths("", &ps)
@@ -647,12 +675,22 @@ func c16GenPattern(w *c16World, r *Rng) string {
 		}
 		return p
 	}
+	// follow an existing path, so that deep patterns match something
+	tp := Pick(r, ps)
+	if len(ps) > 1 {
+		tp = Pick(r, ps[1:])
+	}
+	target := strings.Split(tp.p, "/")[1:]
+	if depth > len(target) && r.Chance(4, 5) {
+		depth = len(target)
+	}
+	if depth == 0 {
+		depth = 1
+	}
 	segs := make([]string, depth)
-	// follow an existing path for the literal elements, so that deep patterns match something
-	target := strings.Split(Pick(r, ps).p, "/")[1:]
 	for i := range segs {
-		if i < len(target) && target[i] != "" && r.Chance(1, 2) {
-			segs[i] = target[i]
+		if i < len(target) && target[i] != "" && r.Chance(3, 4) {
+			segs[i] = c16Generalise(r, target[i])
 		} else {
 			segs[i] = Pick(r, c16Segs)
 		}
